@@ -14,6 +14,10 @@ pub struct LatticeCase {
     /// the path and the query points are multiplied by 2^scale_log2 (exact in f32): the answer must not change
     #[serde(default)]
     pub scale_log2: i32,
+    /// the flattening tolerance handed to contains_point (before scaling); it only concerns curves, so for these
+    /// polygons the answer must not depend on it, however large it is against the polygon's edges
+    #[serde(default)]
+    pub tol: Option<Fl>,
 }
 
 /// Walk ops with the statement's cursor rule; returns segments (doubled integer coordinates) of the
@@ -104,7 +108,7 @@ pub fn check_lattice(c: &LatticeCase) -> CheckResult {
         for qx in -16i64..=16 {
             let (on, degen, wn) = exact(&segs, (qx, qy));
             let inside = if c.path.evenodd { wn & 1 != 0 } else { wn != 0 };
-            let got = path.contains_point(0.1 * k, qx as f32 / 2.0 * k, qy as f32 / 2.0 * k);
+            let got = path.contains_point(c.tol.map(|t| t.0).unwrap_or(0.1) * k, qx as f32 / 2.0 * k, qy as f32 / 2.0 * k);
             if degen && !inside {
                 o.undecided += 1;
                 continue;
@@ -133,6 +137,7 @@ pub fn check_lattice(c: &LatticeCase) -> CheckResult {
     o.nontrivial = nt > 0 && segs.len() >= 2;
     o.class_if(c.path.evenodd, "evenodd");
     o.class_if(c.scale_log2 < -8, "tiny-coordinates");
+    o.class_if(c.tol.map(|t| t.0 >= 1.0).unwrap_or(false), "tolerance-larger-than-edges");
     o.class_if(c.scale_log2 > 8, "huge-coordinates");
     o.class_if(c.path.ops.iter().filter(|p| matches!(p, POp::M(..))).count() > 1, "multi-subpath");
     let mut after_close = false;
@@ -169,7 +174,8 @@ fn lattice_strategy() -> BoxedStrategy<LatticeCase> {
         ops
     });
     let scale = prop_oneof![6 => Just(0i32), 1 => Just(-20i32), 1 => Just(-14i32), 1 => Just(-30i32), 1 => Just(14i32), 1 => -24i32..=16];
-    (prop::collection::vec(sub, 1..=3), any::<bool>(), scale).prop_map(|(subs, evenodd, scale_log2)| LatticeCase { path: PathSpec { ops: subs.concat(), evenodd }, scale_log2 }).boxed()
+    let tol = prop_oneof![4 => Just(0.1f32), 1 => Just(1e-6f32), 1 => Just(1.0f32), 1 => Just(2.5f32), 1 => Just(20.0f32), 1 => 0.01f32..30.0];
+    (prop::collection::vec(sub, 1..=3), any::<bool>(), scale, tol).prop_map(|(subs, evenodd, scale_log2, tol)| LatticeCase { path: PathSpec { ops: subs.concat(), evenodd }, scale_log2, tol: Some(Fl(tol)) }).boxed()
 }
 
 // ---------------------------------------------------------------------------
@@ -246,14 +252,14 @@ fn fill_strategy() -> BoxedStrategy<FillCase> {
 pub fn property(_ctx: &Ctx) -> Property {
     Property {
         id: "C17",
-        rule: "part lattice: polygons with integer vertices in [-6,6] (1-3 subpaths, 2-7 vertices, open/closed, either orientation, self-intersecting, duplicates, segments after close, missing leading move_to), both rules, the whole configuration multiplied by 2^k (k = 0 mostly, -30..16: tiny and large coordinates, exact in f32); every one of the 1089 half-integer lattice points of [-8,8]^2 is queried and compared with an exact integer winding number + on-segment computation (f32 arithmetic is exact on this lattice). part fill: float polygons and curves rendered at 4x on 64x64; contains_point must be true at centres of pixels whose 3x3 neighbourhood is fully painted and false where it is untouched. Non-trivial: polygon with >=2 segments and >=1 query level with a vertex or on a segment (lattice) / >=1 inside and >=1 outside judged pixel (fill); distinct by hash of the case.",
+        rule: "part lattice: polygons with integer vertices in [-6,6] (1-3 subpaths, 2-7 vertices, open/closed, either orientation, self-intersecting, duplicates, segments after close, missing leading move_to), both rules, the whole configuration multiplied by 2^k (k = 0 mostly, -30..16: tiny and large coordinates, exact in f32), queried with flattening tolerances from 1e-6 to 30 (irrelevant for polygons: same answers required); every one of the 1089 half-integer lattice points of [-8,8]^2 is queried and compared with an exact integer winding number + on-segment computation (f32 arithmetic is exact on this lattice). part fill: float polygons and curves rendered at 4x on 64x64; contains_point must be true at centres of pixels whose 3x3 neighbourhood is fully painted and false where it is untouched. Non-trivial: polygon with >=2 segments and >=1 query level with a vertex or on a segment (lattice) / >=1 inside and >=1 outside judged pixel (fill); distinct by hash of the case.",
         assumptions: vec![
             "a query that coincides only with a zero-length segment (and is not inside) is not judged",
             "fill part: only pixel centres farther than 1.5 px from the f64 outline and with a uniform 3x3 neighbourhood are judged (contains_point flattens at its own tolerance)",
             "after close the cursor is the subpath's starting point (as in filling, C08/C16)",
         ],
         parts: vec![part("lattice", 16_000, 400_000, lattice_strategy, check_lattice), part("fill", 10_000, 200_000, fill_strategy, check_fill)],
-        min_class_fraction: vec![("lattice", "line-after-close", 0.05), ("lattice", "horizontal-edge", 0.2), ("lattice", "tiny-coordinates", 0.1), ("fill", "curves", 0.4)],
+        min_class_fraction: vec![("lattice", "line-after-close", 0.05), ("lattice", "horizontal-edge", 0.2), ("lattice", "tiny-coordinates", 0.1), ("lattice", "tolerance-larger-than-edges", 0.2), ("fill", "curves", 0.4)],
         panic_is_violation: false,
     }
 }
